@@ -189,6 +189,81 @@ func c08(args []string) {
 		emit("CASE", fmt.Sprintf("(%d%%nat, %s, %s, %s, %s, %s)", size, coqNats(plan), coqBool(eofWD), coqBytes(data), coqNats(ns), coqList(outs)))
 		stat("readbuffer_scripts", 1)
 	}
+	// (a') a long-lived read buffer: Reset with another size option and reader (a reused decoder), ReadN scripts in between
+	for i := 0; i < n/3; i++ {
+		var ops, obs []string
+		var rb *decoder.VerifReadBuffer
+		prev := 0
+		bad := false
+		for seg := 0; seg < 2+r.intn(3) && !bad; seg++ {
+			size := bufSizes[r.intn(len(bufSizes))]
+			if seg > 0 && r.chance(2, 3) { // around what the array already holds: just below, equal, inside and beyond the reserved band above it
+				size = maxInt(prev, 765) + r.pick(-700, -1, 0, 1, 2, 100, 764, 765, 766, 3000)
+			}
+			prev = size
+			total := r.pick(0, 1, 5, 100, 764, 765, 766, 1531, 2000)
+			if r.chance(1, 2) {
+				total = r.intn(2000)
+			}
+			data := r.bytes(total)
+			plan := r.chunkPlan(total)
+			eofWD := r.chance(1, 2)
+			rd := &chunkReader{data: append([]byte(nil), data...), plan: append([]int(nil), plan...), eofWithData: eofWD, failAt: -1}
+			perr := func() (p any) {
+				defer func() { p = recover() }()
+				if rb == nil {
+					rb = decoder.NewVerifReadBuffer(rd, size)
+				} else {
+					rb.Reset(rd, size)
+				}
+				return nil
+			}()
+			ops = append(ops, fmt.Sprintf("OReset %d%%nat {| rest := %s; plan := %s; eof_with_data := %s |}", size, coqBytes(data), coqNats(plan), coqBool(eofWD)))
+			if perr != nil {
+				obs = append(obs, "RPanic")
+				emitJSON("FAIL", "", map[string]any{"kind": "readbuffer-reset-panic", "panic": fmt.Sprint(perr), "size": size, "script": ops})
+				break
+			}
+			_, _, blen := rb.State()
+			obs = append(obs, fmt.Sprintf("RLen %d%%nat", blen))
+			if blen > rb.Cap() {
+				emitJSON("FAIL", "", map[string]any{"kind": "readbuffer-window-beyond-capacity", "len": blen, "cap": rb.Cap()})
+			}
+			for k := 0; k < r.intn(8); k++ {
+				req := r.pick(0, 1, 2, 5, 13, 255, 600, 764, 765)
+				if r.chance(1, 3) {
+					req = r.intn(766)
+				}
+				ops = append(ops, fmt.Sprintf("ORead %d%%nat", req))
+				b, err := func() (b []byte, err error) {
+					defer func() {
+						if p := recover(); p != nil {
+							err = fmt.Errorf("panic: %v", p)
+						}
+					}()
+					return rb.ReadN(req)
+				}()
+				if err != nil {
+					switch {
+					case err == io.EOF:
+						obs = append(obs, "ROut (Err EOF)")
+					case err == io.ErrUnexpectedEOF:
+						obs = append(obs, "ROut (Err UnexpectedEOF)")
+					case strings.HasPrefix(err.Error(), "panic"):
+						obs = append(obs, "ROut Panic")
+						emitJSON("FAIL", "", map[string]any{"kind": "reused-readbuffer-panic", "err": err.Error(), "script": ops})
+						bad = true
+					default:
+						obs = append(obs, "ROut (Err ShortBuffer)")
+					}
+					break
+				}
+				obs = append(obs, "ROut (Ok "+coqBytes(b)+")")
+			}
+		}
+		emit("REUSE", fmt.Sprintf("(%s, %s)", coqList(ops), coqList(obs)))
+		stat("reused_readbuffer_scripts", 1)
+	}
 	// (b) the property itself on the Go side: chunked vs contiguous decoding, every buffer size, EOF style, reader failures
 	var pool [][]byte
 	for _, p := range fixtureFiles(3300) {
@@ -278,6 +353,57 @@ func c08(args []string) {
 				emitJSON("FAIL", "", map[string]any{"kind": "reader-failure-different-prefix", "fail_at": at})
 			}
 		}
+		// the raw decoder: same segments, byte count and verdict however the reader fragments the stream; a reader failure
+		// at any point (sequence boundaries and the very end included) is an error, never success
+		{
+			rLog, rN, rErr, bounds := rawEvents(bytes.NewReader(b))
+			cLog, cN, cErr, _ := rawEvents(&chunkReader{data: append([]byte(nil), b...), plan: r.chunkPlan(len(b)), eofWithData: eofWD, failAt: -1})
+			stat("oracle_raw_chunked_vs_contiguous", 1)
+			if rLog != cLog || rN != cN || rErr != cErr {
+				emitJSON("FAIL", "", map[string]any{"kind": "raw-decoder-chunking-dependence", "bytes": fmt.Sprintf("%x", b), "eof_with_data": eofWD,
+					"contiguous": fmt.Sprint(rN, rErr), "chunked": fmt.Sprint(cN, cErr), "same_segments": rLog == cLog})
+			}
+			points := append([]int{0, len(b)}, bounds...)
+			for k := 0; k < 6; k++ {
+				points = append(points, r.intn(len(b)+1))
+			}
+			if len(b) <= 120 {
+				for at := 0; at <= len(b); at++ {
+					points = append(points, at)
+				}
+			}
+			for _, at := range points {
+				if at > len(b) {
+					continue
+				}
+				plan := r.chunkPlan(len(b))
+				if r.chance(1, 3) {
+					plan = []int{1 << 20}
+				}
+				_, fN, fErr, _ := rawEvents(&chunkReader{data: append([]byte(nil), b...), plan: plan, eofWithData: false, failAt: at})
+				stat("oracle_raw_reader_failure", 1)
+				if fErr == 0 {
+					emitJSON("FAIL", "", map[string]any{"kind": "raw-decoder-reader-failure-reported-as-success", "bytes": fmt.Sprintf("%x", b), "fail_at": at, "consumed": fN, "sequence_boundaries": bounds})
+					break
+				}
+			}
+		}
+		// a reused decoder (Reset with another read-buffer size) decodes like a fresh one of that size
+		{
+			a := r.pick(0, 1, 766, 1024, 4096, 5000)
+			grow := r.pick(1, 2, 100, 764, 765, 766, 3000)
+			if r.chance(1, 5) {
+				grow = -r.intn(maxInt(a, 765))
+			}
+			second := maxInt(a, 765) + grow
+			log1, err1, p1 := reusedDecode(b, a, second, checksum)
+			log2, err2 := decodeEvents(bytes.NewReader(b), second, checksum)
+			stat("oracle_reused_decoder", 1)
+			if p1 != nil || log1 != log2 || err1 != err2 {
+				emitJSON("FAIL", "", map[string]any{"kind": "reused-decoder-differs-from-fresh", "bytes": fmt.Sprintf("%x", b), "first_bufsize": a, "second_bufsize": second,
+					"panic": fmt.Sprint(p1), "reused_err": err1, "fresh_err": err2, "same_events": log1 == log2})
+			}
+		}
 		if i < 2 {
 			emit("SAMPLE", fmt.Sprintf("%d bytes, plan %v..., buffer %d, eof-with-data %v: contiguous err %d chunked err %d", len(b), plan[:minInt(len(plan), 6)], size, eofWD, refErr, gotErr))
 		}
@@ -285,6 +411,66 @@ func c08(args []string) {
 }
 
 func prefixLines(s string) string { return s }
+
+// rawEvents: the raw decoder's segments (flag:bytes), consumed count, error class and the offsets at which a sequence ended.
+func rawEvents(rd io.Reader) (log string, n int64, errc int, bounds []int) {
+	var sb strings.Builder
+	defer func() {
+		if p := recover(); p != nil {
+			log, errc = sb.String(), 100
+		}
+	}()
+	off := 0
+	n, err := decoder.NewRaw().Decode(rd, func(flag decoder.RawFlag, seg []byte) error {
+		fmt.Fprintf(&sb, "%d:%x\n", flag, seg)
+		off += len(seg)
+		if flag == decoder.RawFlagCRC {
+			bounds = append(bounds, off)
+		}
+		return nil
+	})
+	return sb.String(), n, errClass(err), bounds
+}
+
+// reusedDecode: a decoder built with read-buffer size first decodes b, is Reset to size second and decodes b again; the
+// events and error class of the second use.
+func reusedDecode(b []byte, first, second int, checksum bool) (log string, errc int, panicked any) {
+	defer func() { panicked = recover() }()
+	dec := decoder.New(bytes.NewReader(b), decoder.WithReadBufferSize(first))
+	for dec.Next() {
+		if _, err := dec.Decode(); err != nil {
+			break
+		}
+	}
+	ev := &eventLog{}
+	opts := []decoder.Option{decoder.WithMesgListener(ev), decoder.WithMesgDefListener(ev), decoder.WithReadBufferSize(second)}
+	if !checksum {
+		opts = append(opts, decoder.WithIgnoreChecksum())
+	}
+	dec.Reset(bytes.NewReader(b), opts...)
+	var fits []*proto.FIT
+	var rerr error
+	for dec.Next() {
+		fit, err := dec.Decode()
+		if err != nil {
+			rerr = err
+			break
+		}
+		fits = append(fits, fit)
+	}
+	if rerr == nil {
+		_, err := dec.Decode()
+		if !errors.Is(err, io.EOF) || len(fits) == 0 {
+			rerr = err
+		}
+	}
+	var sb strings.Builder
+	for _, f := range fits {
+		sb.WriteString("F" + coqFit(f) + "\n")
+	}
+	sb.WriteString(strings.Join(ev.lines, "\n"))
+	return sb.String(), errClass(rerr), nil
+}
 
 // endsInsideSequence: the byte string stops in the middle of a sequence (header, record or CRC cut off), judged by the raw decoder.
 func endsInsideSequence(b []byte) bool {
